@@ -5,6 +5,7 @@ stdin : {"cases": [case, ...], "codec": [[layer key, hex], ...], "warmup": [K, .
   case = {"op": "m2p2m", "cls": K, "fields": {name: value}}         message -> packet -> message
        | {"op": "p2m2p", "cls": K, "pkt": PKT, "kw": {..}}          packet -> message -> packet
        | {"op": "convert", "pkt": PKT, "ver": 1|2}                   hub.convert_packet(pkt).to_packet()
+       | {"op": "seq", "dir": "m2p"|"p2m"|"conv", "cls": K, "items": [..]}   several conversions, all results kept and re-read
   K    = "<domain>.<msg>[@version]"   e.g. "ble.raw_pdu", "phy.packet@2"
   value= int | bool | {"hex": ".."} | [ints]
   PKT  = {"layer": scapy class name, "bytes": hex, "clear": [field names set to None after dissection],
@@ -165,6 +166,8 @@ def set_d15proto(name):
 def do_case(c):
     out = {}
     op = c["op"]
+    if op == "seq":
+        return do_seq(c)
     set_d15proto(c.get("d15proto"))
     if op == "m2p2m":
         M = wrapper(c["cls"])
@@ -214,6 +217,63 @@ def do_case(c):
         out["p1"] = {"exc_build": err.get("exc", "none")} if err else {"ok": d}
         return out
     return {"bad_op": op}
+
+
+def do_seq(c):
+    """A SEQUENCE of conversions whose results are all kept and re-read afterwards.
+    dir = "m2p": items are message field dicts of class c["cls"], each converted with to_packet();
+          "p2m": items are packet specs, each converted with M.from_packet();
+          "conv": items are packet specs, each converted with hub.convert_packet().
+    Returns, per item, the dump taken right after its conversion ("first") and the dump of the SAME kept
+    object taken after the whole sequence ("late"), and whether the kept results (and their metadata /
+    protobuf objects) are pairwise distinct objects."""
+    set_d15proto(c.get("d15proto"))
+    kind, first, kept, inputs = c["dir"], [], [], []
+    if kind == "m2p":
+        M = wrapper(c["cls"])
+        for f in c["items"]:
+            m, err = stage(lambda: M(**{k: dec(v) for k, v in f.items()}))
+            if err:
+                first.append({"m0": err}); kept.append(None); continue
+            e = {"m0": {"ok": dump_msg(m)}}
+            p, err = stage(m.to_packet)
+            if err:
+                e["r"] = err; kept.append(None)
+            else:
+                d, err = stage(lambda: dump_pkt(p))
+                e["r"] = {"exc_build": err.get("exc", "none")} if err else {"ok": d}
+                kept.append(None if err else p)
+            first.append(e)
+        late = [None if p is None else {"ok": dump_pkt(p)} for p in kept]
+        sub = [getattr(p, "metadata", None) for p in kept if p is not None]
+    else:
+        if kind == "p2m":
+            M = wrapper(c["cls"])
+        elif c.get("dom"):
+            getattr(HUBS[c.get("ver", 2)], c["dom"])
+        for spec in c["items"]:
+            p, err = stage(lambda: make_pkt(spec))
+            inputs.append(p)
+        for p in inputs:
+            if p is None:
+                first.append({"p0": {"exc": "build"}}); kept.append(None); continue
+            e = {"p0": {"ok": dump_pkt(p)}}
+            if kind == "p2m":
+                m, err = stage(lambda: M.from_packet(p))
+            else:
+                m, err = stage(lambda: HUBS[c.get("ver", 2)].convert_packet(p))
+            e["r"] = err or {"ok": dump_msg(m)}
+            kept.append(None if err else m)
+            first.append(e)
+        late = [None if m is None else {"ok": dump_msg(m)} for m in kept]
+        sub = [m.message for m in kept if m is not None]
+    objs = [o for o in kept if o is not None]
+    sub = [o for o in sub if o is not None]
+    res = {"first": first, "late": late, "distinct": len({id(o) for o in objs}) == len(objs),
+           "sub_distinct": len({id(o) for o in sub}) == len(sub)}
+    if inputs:
+        res["in_late"] = [None if p is None else dump_pkt(p) for p in inputs]
+    return res
 
 
 def do_codec(q):
